@@ -106,7 +106,7 @@ def entry(h: H, a, x, step):
     return z3.Exists([t], z3.And(ep_of(h, a, t), h.f('t0', t) == x, h.bag(h.f('t1', t), VStr(step)) > 0))
 
 
-def wf_model(h: H, M, parts=('M0', 'M1', 'M2', 'M3', 'M4', 'M5')):
+def wf_model(h: H, M, parts=('M0', 'M1', 'M2', 'M3', 'M4', 'M5', 'M6')):
     x, y, s, r, a, b, t, u = A('x!wm'), A('y!wm'), A('s!wm'), A('r!wm'), A('a!wm'), A('b!wm'), A('t!wm'), A('u!wm')
     k, k2 = z3.Const('k!wm', Val), z3.Const('k2!wm', Val)
     XL, SL, AL, D = h.f('assets', M), h.f('associations', M), h.f('attackers', M), h.f('_type_to_association', M)
@@ -200,4 +200,14 @@ def wf_model(h: H, M, parts=('M0', 'M1', 'M2', 'M3', 'M4', 'M5')):
                                                   z3.And(h.bag(h.f('t1', t), k) >= 0, z3.Implies(h.bag(h.f('t1', t), k) > 0, is_VStr(k)))),
                             [(h.cnt(E(a), t), h.bag(h.f('t1', t), k))])),
         ]
+    if 'M6' in parts:
+        # C06: no pair of assets is linked twice by associations of one class (a link that already exists is rejected)
+        link = lambda q, a_, b_: z3.And(in_l(h, q, a_) > 0, in_r(h, q, b_) > 0)
+        OWNER = inv_fn('INV!link', BagSort, h.arr['L_bag'].sort(), h.arr['f_lfield'].sort(), h.arr['f_rfield'].sort(), Str, Addr, Addr, Addr)
+        out.append(('M6.no-duplicate-links', Dual(
+            FA([s, r, x, y], z3.Implies(z3.And(is_assoc(h, M, s), is_assoc(h, M, r), h.f('clsname', s) == h.f('clsname', r), link(s, x, y), link(r, x, y)), s == r),
+               [(in_l(h, s, x), in_r(h, s, y), in_l(h, r, x), in_r(h, r, y))]),
+            FA([s, x, y], z3.Implies(z3.And(is_assoc(h, M, s), link(s, x, y)),
+                                     OWNER(h.bagof(SL), h.arr['L_bag'], h.arr['f_lfield'], h.arr['f_rfield'], h.f('clsname', s), x, y) == s),
+               [(in_l(h, s, x), in_r(h, s, y))]))))
     return out
